@@ -188,7 +188,7 @@ def tcoeffs_of(prob, num_coeffs):
 
 def build(*, fact, strategy, cal, ts, nu, problem, damp=0.0, base_scale=None, init="exact", inexact_eps=1e-3,
           diffuse=0, constraint_init=False, relinearize=False, correct_underconfidence=True, error="residual",
-          error_kwargs=None, prior="iwp", stop_gradient=True, jacobian=None, prob=None):
+          error_kwargs=None, prior="iwp", stop_gradient=True, jacobian=None, prob=None, tc_ulp_seed=None):
     """Assemble (prior, constraint, solver, error, ...) for one configuration. ``nu`` = number of derivatives."""
     import jax.numpy as jnp
     from probdiffeq import probdiffeq
@@ -198,6 +198,11 @@ def build(*, fact, strategy, cal, ts, nu, problem, damp=0.0, base_scale=None, in
     vf = ode_of(prob, jacobian=jacobian)
     n = nu + 1
     tc = tcoeffs_of(prob, n - diffuse)
+    if tc_ulp_seed is not None:
+        # conditioning probe: every Taylor coefficient moved by one unit roundoff *independently* (moving only u0 would slide
+        # along the solution manifold and leave the residuals, whose rounding noise is what gets amplified, untouched)
+        rr = np.random.default_rng(tc_ulp_seed)
+        tc = [x * jnp.asarray(1.0 + rr.choice([-1.0, 1.0], size=np.shape(x)) * 2.0**-52) for x in tc]
     d = prob["d"]
     bs = None
     if base_scale is not None:
